@@ -54,3 +54,16 @@ def settle(chk, stream, broken, dis, crash, ofail, describe=lambda r: r["ops"]):
         chk.coverage["broken_obligations"] = broken
     elif broken and dis:
         chk.coverage["broken_obligations"] = broken
+
+
+def load_corpus(prop, first_index):
+    """minimised past failures / regression cases: corpus/<prop>/*.txt, renumbered from first_index"""
+    d = os.path.join(vlib.VERIF, "corpus", prop)
+    out = []
+    if os.path.isdir(d):
+        for f in sorted(os.listdir(d)):
+            lines = [l.rstrip("\n") for l in open(os.path.join(d, f)) if l.strip()]
+            if lines:
+                lines[0] = "case %d" % (first_index + len(out))
+                out.append(lines)
+    return out
